@@ -1,7 +1,7 @@
 /-
 C14 driver.  Reads module-graph cases + evaluation requests (the text the Rust harness `c14` reads) and
 prints what the model M (`model`), a variant of it (`variant:<flags>`, see `main`) or the specification S (`spec`) says each
-request yields: status, the binding of every observed name, every instantiated module's view of its
+request yields (`guard`: whether the case is inside the guard of the refinement theorem): status, the binding of every observed name, every instantiated module's view of its
 names, and the per-module instantiation counters.  `elab` echoes the input with the `view` lines of
 every module (the names S makes visible inside it) inserted.
 
@@ -193,6 +193,16 @@ def elabCase (c : Case) : List String := Id.run do
     | _ => out := out ++ [l]
   return out
 
+/-- `guard`: is the case inside the guard of `whole_request_refinement_partial` (Props §5)?  Prints whether the
+graph is (`graphGuard`) and how many leading requests are (`reqGuard`): on those the theorem says M = S, so the
+real engine must equal S there, with no finding to appeal to. -/
+def guardCase (c : Case) : List String :=
+  let g : Graph := c.mods
+  let gok := graphGuard g
+  let ms := sBuild g
+  let lead := (c.reqs.takeWhile (reqGuard g ms)).length
+  [s!"case {c.id}", s!"guard {gok} {if gok then lead else 0} {c.reqs.length}", "endcase"]
+
 partial def readAll (h : IO.FS.Stream) (p : PState) : IO PState := do
   let l ← h.getLine
   if l.isEmpty then return p
@@ -212,6 +222,7 @@ def main (args : List String) : IO UInt32 := do
       match mode with
       | "elab" => elabCase c
       | "spec" => runSpec c
+      | "guard" => guardCase c
       | "model" => runModel {} c
       | m =>
         -- `variant:<flags>`: m = modifiers composed (what S asks; open finding K14c),
